@@ -13,6 +13,7 @@ SECTIONS = {20: "op_result", 30: "digest(metabase dump + GC epochs + Get/IsLocke
             51: "C07 never expired/removed while locked", 52: "C07 tombstone for a locked object rejected, state unchanged",
             53: "C07 GC keeps a protected unmarked object", 54: "C07 lock for a tombstoned object rejected",
             55: "C07 tombstone for a lock object rejected", 60: "C44 final state clean", 61: "C44 everything that should go is gone",
+            62: "C44 premise: stored tombstoned object carries a garbage key", 63: "C44 premise: no data without metadata",
             99: "outside the modelled fragment"}
 
 HASH_P = (1 << 61) - 1
